@@ -17,6 +17,7 @@ import (
 	"runtime"
 	"sort"
 	"strings"
+	"sync"
 	"time"
 )
 
@@ -153,10 +154,10 @@ func (s *Sched) objID(o any) int {
 
 // Options of one execution.
 type Options struct {
-	MaxSteps int
-	Trace    bool
-	KeepEnv  bool
-	StartAt  time.Duration // initial offset of the virtual clock from Epoch
+	MaxSteps    int
+	Trace       bool
+	KeepEnv     bool
+	StartAt     time.Duration // initial offset of the virtual clock from Epoch
 	PermuteMaps bool
 }
 
@@ -503,13 +504,42 @@ type mapOrder struct {
 
 func mapID(m any) uintptr { return reflect.ValueOf(m).Pointer() }
 
+// Free-running mode (no scheduler): files rewritten with -mode maps only.
+// Insertion order is tracked in a process-wide table that the harness resets
+// per run; FreePerm selects the permutation applied to every 2-3 element map
+// iteration of the run (the harness enumerates it).
+var (
+	freeMu   sync.Mutex
+	freeMaps = map[uintptr]*mapOrder{}
+	FreePerm int
+)
+
+// ResetFreeMaps forgets all recorded insertion orders (start of a free-running run).
+func ResetFreeMaps() {
+	freeMu.Lock()
+	freeMaps = map[uintptr]*mapOrder{}
+	freeMu.Unlock()
+}
+
 // NoteKey records the insertion of k into m (rewritten `m[k] = v`).
 func NoteKey[K comparable, V any](m map[K]V, k K) {
-	s := S
-	if s == nil || m == nil {
+	if m == nil {
 		return
 	}
 	if _, exists := m[k]; exists {
+		return
+	}
+	s := S
+	if s == nil {
+		freeMu.Lock()
+		id := mapID(m)
+		mo := freeMaps[id]
+		if mo == nil {
+			mo = &mapOrder{}
+			freeMaps[id] = mo
+		}
+		mo.keys = append(mo.keys, k)
+		freeMu.Unlock()
 		return
 	}
 	if s.maps == nil {
@@ -528,15 +558,28 @@ func NoteKey[K comparable, V any](m map[K]V, k K) {
 func Keys[K comparable, V any](m map[K]V) []K {
 	ks := make([]K, 0, len(m))
 	seen := map[K]bool{}
-	if s := S; s != nil && s.maps != nil && m != nil {
-		if mo := s.maps[mapID(m)]; mo != nil {
-			for _, k := range mo.keys {
-				kk := k.(K)
-				if _, ok := m[kk]; ok && !seen[kk] {
-					seen[kk] = true
-					ks = append(ks, kk)
-				}
+	var recorded []any
+	if s := S; s != nil {
+		if s.maps != nil && m != nil {
+			if mo := s.maps[mapID(m)]; mo != nil {
+				recorded = mo.keys
 			}
+		}
+	} else if m != nil {
+		freeMu.Lock()
+		if mo := freeMaps[mapID(m)]; mo != nil {
+			recorded = append([]any{}, mo.keys...)
+		}
+		freeMu.Unlock()
+	}
+	for _, k := range recorded {
+		kk, isK := k.(K)
+		if !isK {
+			continue
+		}
+		if _, ok := m[kk]; ok && !seen[kk] {
+			seen[kk] = true
+			ks = append(ks, kk)
 		}
 	}
 	var rest []K
@@ -547,6 +590,18 @@ func Keys[K comparable, V any](m map[K]V) []K {
 	}
 	sort.Slice(rest, func(i, j int) bool { return fmt.Sprint(rest[i]) < fmt.Sprint(rest[j]) })
 	ks = append(ks, rest...)
+	if S == nil && FreePerm > 0 && (len(ks) == 2 || len(ks) == 3) {
+		perms := [][]int{{0, 1, 2}, {1, 0, 2}, {0, 2, 1}, {2, 0, 1}, {1, 2, 0}, {2, 1, 0}}
+		p := perms[FreePerm%6]
+		if len(ks) == 2 {
+			p = perms[FreePerm%2]
+		}
+		out := make([]K, len(ks))
+		for i := range ks {
+			out[i] = ks[p[i]]
+		}
+		return out
+	}
 	if S != nil && S.PermuteMaps && !S.aborting && (len(ks) == 2 || len(ks) == 3) {
 		perms := [][]int{{0, 1, 2}, {1, 0, 2}, {0, 2, 1}, {2, 0, 1}, {1, 2, 0}, {2, 1, 0}}
 		n := 2
